@@ -148,6 +148,13 @@ func (mc *Metacontroller) Reconcile(ctx context.Context, request reconcile.Reque
 			"name", compositeControllerName,
 			"reason", "subresource 'Status' not enabled",
 			"groupVersionKind", parentCRD.GroupVersionKind())
+		// An instance started from an earlier spec must not keep running with a
+		// spec that has been replaced (same as when the new spec fails to start).
+		if pc, ok := mc.parentControllers[compositeControllerName]; ok && !apiequality.Semantic.DeepEqual(cc.Spec, pc.cc.Spec) {
+			pc.Stop()
+			mc.eventRecorder.Eventf(&cc, v1.EventTypeNormal, events.ReasonStopped, "Stopped controller: %s", cc.Name)
+			delete(mc.parentControllers, compositeControllerName)
+		}
 		// returning, as we cannot do anything until 'Status' subresource is added to parent parentCRD
 		return reconcile.Result{}, nil
 	}
